@@ -1,5 +1,31 @@
 (* what the generated case files import *)
 From Coq Require Export List Bool NArith.
-From PFL Require Export Base.ListSet Spec.Enfa Model.Enfa Oracle.EnfaEquiv.
+From PFL Require Export Base.ListSet Spec.Enfa Model.Enfa Model.EnfaOps Proofs.EnfaShapes
+  Oracle.EnfaEquiv Oracle.EnfaMinimal.
 Export ListNotations.
 #[global] Open Scope N_scope.
+
+Definition FUEL : nat := 40%nat.
+
+Inductive verdict := VEq | VDiff (w : option (list N)) | VFuel.
+
+Definition judge {Q1 Q2} `{EqDec Q1} `{EqDec Q2} `{Canon Q1} `{Canon Q2} (X : enfa Q1) (R : enfa Q2) : verdict :=
+  match enfa_equiv X R FUEL with
+  | Some true => VEq
+  | Some false => VDiff (diff_word X R 4000%nat)
+  | None => VFuel
+  end.
+Definition judge_opt {Q1 Q2} `{EqDec Q1} `{EqDec Q2} `{Canon Q1} `{Canon Q2} (X : option (enfa Q1)) (R : enfa Q2) : verdict :=
+  match X with Some X' => judge X' R | None => VFuel end.
+
+Definition with_syms {Q} (A : enfa Q) (s : list N) : enfa Q :=
+  mkE (e_states A) s (e_delta A) (e_starts A) (e_finals A).
+
+(* reference constructions built from the proved operations *)
+Definition ref_complement (A : enfa N) := option_map complement (determinize true A FUEL).
+Definition ref_intersection (A B : enfa N) := intersection A B FUEL.
+Definition ref_difference (A B : enfa N) :=
+  match ref_complement (with_syms B (union (e_syms B) (e_syms A))) with
+  | Some C => intersection A C FUEL
+  | None => None
+  end.
